@@ -373,7 +373,7 @@ def run(tier, seed):
             self.agg = agg
 
         def vc(self, function, clause, r, config=""):
-            if "combined by label" in clause or "cut from the i-th block" in clause or clause in ("within-supported-subset", "has-returning-path"):
+            if "combined by label" in clause or clause in ("within-supported-subset", "has-returning-path"):
                 return self.agg.vc(function, clause, r, config)
             return True
     c02_structures(res, _OnlyJoin(agg), only_lists=True)
